@@ -375,7 +375,11 @@ def drv_mprod(doc, args, inst):
         sx = snapshot(x)
         modes = args['modes']
         L = [clampi(l) for l in inst['L']]
-        Fs = [tn.randn([L[j], x.N[m]], dtype=tn.float64).to(x.cores[0].dtype) for j, m in enumerate(modes)]
+        cur = list(x.N)
+        Fs = []
+        for j, m in enumerate(modes):
+            Fs.append(tn.randn([L[j], cur[m]], dtype=tn.float64).to(x.cores[0].dtype))
+            cur[m] = L[j]
         try:
             r = x.mprod(Fs[0], modes[0]) if args['form'] == 'int' else x.mprod(Fs, list(modes))
         except Exception as e:
@@ -732,6 +736,7 @@ def drv_copies(doc, args, inst):
     try:
         r = {'clone': lambda: x.clone(), 'detach': lambda: x.detach(), 'cpu': lambda: x.cpu(), 'to_dtype': lambda: x.to(dtype=tn.float32),
              'to_none': lambda: x.to(), 'numpy': lambda: x.numpy(), 'to_device': lambda: x.to(device=tn.device('cpu')),
+             'to_complex': lambda: x.to(dtype=tn.complex64),
              'to_both': lambda: x.to(device=tn.device('cpu'), dtype=tn.float32), 'to_positional': lambda: x.to(tn.device('cpu'), tn.float32)}[op]()
     except Exception as e:
         return ['%s raises %s: %s' % (op, type(e).__name__, str(e)[:150])]
@@ -742,7 +747,9 @@ def drv_copies(doc, args, inst):
     we = wf_errors(r)
     if we:
         msgs.append('not well formed: %s' % we)
-    if not relerr(r.full(), f) < (1e-5 if op in ('to_dtype', 'to_both', 'to_positional') else 1e-12):
+    if op == 'to_complex' and any(c.dtype != tn.complex64 for c in r.cores):
+        msgs.append('to(dtype=complex64) of a complex128 object did not convert (core dtypes %s)' % sorted(set(str(c.dtype) for c in r.cores)))
+    if not relerr(r.full(), f) < (1e-5 if op in ('to_dtype', 'to_both', 'to_positional', 'to_complex') else 1e-12):
         msgs.append('%s changed the value' % op)
     if op in ('to_dtype', 'to_both', 'to_positional') and any(c.dtype != tn.float32 for c in r.cores):
         msgs.append('%s: to(..., dtype=float32) did not convert (core dtypes %s)' % (op, sorted(set(str(c.dtype) for c in r.cores))))
@@ -886,6 +893,10 @@ def _tt_svd_one(doc, args, inst):
                     sv = tn.tensor([1.0] + [np.sqrt(0.45) * e0] * (r_ - 1), dtype=tn.float64)
                     cases.append(((U_ * sv) @ V_.t()).reshape(N))
                 break
+    want_dt = DT.get(inst.get('dtype') or 'float64', tn.float64)
+    if want_dt != tn.float64:
+        gz = tn.Generator().manual_seed(1)
+        cases = [(c.to(want_dt) + (1j * tn.randn(c.shape, dtype=tn.float64, generator=gz)).to(want_dt)) if want_dt.is_complex else c.to(want_dt) for c in cases]
     for A in cases:
         for e in (eps, 0.1, 0.3, 0.5, 1.0 / np.sqrt(max(len(N) - 1, 1)) * 0.9999):
             try:
@@ -901,6 +912,8 @@ def _tt_svd_one(doc, args, inst):
             we = wf_errors(x)
             if we:
                 msgs.append('not well formed: %s' % we)
+            if any(c.dtype != A.dtype for c in x.cores):
+                msgs.append('TT(%s source of dtype %s) has cores of dtype %s' % (inst.get('src', 'torch'), A.dtype, sorted(set(str(c.dtype) for c in x.cores))))
             if list(x.N) != N or (M and list(x.M) != M):
                 msgs.append('shape %s / %s requested %s / %s' % (x.N, x.M if x.is_ttm else None, N, M))
             R = list(x.R)
@@ -908,8 +921,8 @@ def _tt_svd_one(doc, args, inst):
             if any(R[k] > rm[k] for k in range(len(R))):
                 msgs.append('ranks %s exceed rmax %s' % (R, rm))
             binding = any(R[k] >= rm[k] for k in range(1, len(N)))
-            err = float(tn.linalg.norm(x.full() - A) / max(float(tn.linalg.norm(A)), 1e-300))
-            if not binding and err > e * (1 + 1e-9) + 1e-13:
+            err = float(tn.linalg.norm(x.full().to(A.dtype) - A) / max(float(tn.linalg.norm(A)), 1e-300)) if x.full().shape == A.shape else float('inf')
+            if not binding and err > e * (1 + 1e-9) + (1e-13 if A.dtype in (tn.float64, tn.complex128) else 1e-5):
                 msgs.append('TT(dense %s, eps=%g) has relative error %.4g > eps (ranks %s)' % (full_shape, e, err, R))
             if msgs:
                 return msgs
